@@ -161,6 +161,20 @@ class Repo:
         self.residual_classes = {n for mi in self.modules.values() for node in mi.tree.body if isinstance(node, ast.ClassDef) and node.name in res for n in [node.name] if not any(ast.unparse(b).endswith(("Exception", "Error")) for b in node.bases)}
         self._tainted = None
 
+    def relies_on_residual_function(self, module: str, qualname: str) -> Optional[str]:
+        """a helper function outside the pinned decomposition that survived inlining and is referenced (directly) by the function"""
+        if not self.residual:
+            return None
+        for f in self.all_functions():
+            if f.module.relpath == module and f.qualname == qualname:
+                if f.name in self.residual and f.name not in self.residual_classes:
+                    return f.name
+                for n in ast.walk(f.node):
+                    nm = n.id if isinstance(n, ast.Name) else n.attr if isinstance(n, ast.Attribute) else None
+                    if nm is not None and nm in self.residual and nm not in self.residual_classes:
+                        return nm
+        return None
+
     def tainted(self) -> Dict[tuple, str]:
         """(module relpath, qualname) -> helper class (a value class / enum outside the pinned decomposition) the function relies on,
         directly or through calls.  No rule models such classes; helper *functions* that could not be inlined are different: the
